@@ -632,6 +632,26 @@ func (s *Stream) CloseSend() (err error) {
 	return s.checkCancelError(s.sendPacketLocked(drpcwire.KindCloseSend, false, nil))
 }
 
+// CloseRecv closes the receive side of the stream locally, as if the remote had
+// issued a CloseSend: queued and future messages are dropped and receives
+// return io.EOF. If the send side is already closed, the stream is terminated.
+// It is used by the server once a handler has returned, so that the goroutine
+// delivering packets is never parked behind a message nobody will receive.
+func (s *Stream) CloseRecv() {
+	s.log("CALL", func() string { return "CloseRecv()" })
+
+	s.mu.Lock()
+	defer s.mu.Unlock()
+
+	if s.sigs.term.IsSet() {
+		return
+	}
+
+	s.sigs.recv.Set(io.EOF)
+	s.pbuf.Close(io.EOF)
+	s.terminateIfBothClosed()
+}
+
 // Cancel transitions the stream into a state where all writes to the transport will return
 // the provided error, and terminates the stream. It is a no-op if the stream is already
 // finished, and returns a boolean indicating if that was the case.
